@@ -329,8 +329,10 @@ def _accept_job(args):
         return ticket, 0, 0, []          # not admitted by this tree: nothing can be accepted under it (counted as 0 evaluations)
     d = p.d(ticket)
     lo, hi = CC.validity_s(d)
-    times = {"start-1s": lo - 1, "start+1s": lo + 1, "mid": (lo + hi) // 2, "end-1s": hi - 1, "end+1s": hi + 1,
-             "epoch": 0, "far": hi + 10 * 31556952}
+    lo_us, hi_us = int(round(lo * 1e6)), int(round(hi * 1e6))
+    times = {"start": lo_us, "end": hi_us, "start-1us": lo_us - 1, "end+1us": hi_us + 1, "start-1s": lo_us - 10 ** 6,
+             "start+1s": lo_us + 10 ** 6, "mid": (lo_us + hi_us) // 2, "end-1s": hi_us - 10 ** 6, "end+1s": hi_us + 10 ** 6,
+             "epoch": 0, "far": hi_us + 10 * 31556952 * 10 ** 6}       # microseconds (Time64)
     psids = [0, 36, 37, 38, 638, 139, 140, 999, 2 ** 31]
     body = b"\x20\x50" + bytes(34) + b"\x07\xd1\x00\x00LAT"
     bad = []
@@ -342,7 +344,7 @@ def _accept_job(args):
                     continue
                 extra = {"generationLocation": {"latitude": 1, "longitude": 2, "elevation": 0xF000}} if psid == 37 else None
                 signer = ("certificate", [d]) if mode == "cert" else ("digest", p.h8(ticket))
-                msg = S.forge(body, psid, int(ts * 1e6), signer, p.sk(ticket), header_extra=extra)
+                msg = S.forge(body, psid, ts, signer, p.sk(ticket), header_extra=extra)
                 n += 1
                 try:
                     conf = w.verify.verify(SNVERIFYRequest(sec_header=b"", sec_header_length=0, message=msg, message_length=len(msg)))
@@ -507,7 +509,7 @@ def run(ctx):
     with mp.Pool(16) as pool:
         # part B
         nb = accb = 0
-        tickets = ["AT1", "AT_cam", "AT_win", "AT_byat", "AT_sub", "AT_aa2", "AT_root"]
+        tickets = ["AT1", "AT_cam", "AT_win", "AT_short", "AT_byat", "AT_sub", "AT_aa2", "AT_root"]
         for ticket, n, acc, bad in pool.imap_unordered(_accept_job, [(t,) for t in tickets]):
             nb += n
             accb += acc
